@@ -714,6 +714,7 @@ def run(ctx):
             extra_oracles.truncated_zero_bound(ctx)
             from .. import extra_oracles2
             extra_oracles2.truncated_infinite_bound(ctx)
+            extra_oracles2.kde_copy(ctx)
             extra_oracles2.retention(ctx, ['GaussianKDE', "GaussianKDE(bw_method='silverman')", 'TruncatedGaussian', 'GaussianUnivariate', 'UniformUnivariate'])
         except Exception as ex:
             ctx.obligation('oracle:extra:raised', False, 'correspondence', repr(ex))
